@@ -117,7 +117,7 @@ Print Assumptions C13_worker_always_progresses.
 
 (** nobody is left hanging: in every reachable state in which some goroutine waits, some goroutine
     has an enabled step that is neither a time-out nor a cancellation (the code as fixed by
-    bbe2e54; before, a load worker could end up waiting on its own channel) *)
+    29c65de; before, a load worker could end up waiting on its own channel) *)
 Theorem C13_never_left_hanging : forall s, reachable s ->
   forall t th ch, thr s t = Some th -> waits_on (t_pc th) = Some ch ->
   exists t' th' a, thr s t' = Some th' /\ a <> ATimeout /\ a <> ACancel /\
@@ -196,6 +196,18 @@ Theorem C13_expired_not_served_partial : forall s t th a s' th' c,
   (exists ch c0 bg, t_pc th = PRenUnblock ch c0 (RCert c) bg).
 Proof. exact expired_returned_only_after_wait_partial. Qed.
 Print Assumptions C13_expired_not_served_partial.
+
+(** the statement shapes of handshake.go that the LTS takes as atomic steps / literals are the
+    ones in the source today (read by the translator on every run; a change breaks this proof) *)
+Theorem C13_source_shape_is_the_modelled_one :
+  hs_reentry_load_args = [[false]; [false]; [false]] /\
+  hs_release_shapes = [[1; 2; 3; 4]; [1; 2; 3; 4]; [1; 2; 3; 4]]%nat /\
+  hs_unblock_call_counts = [1; 2]%nat /\
+  hs_obtain_unblock_then_return = true /\
+  hs_serve_current_iff_unexpired_unrevoked = true /\
+  hs_background_iff_unexpired = true.
+Proof. exact source_shape. Qed.
+Print Assumptions C13_source_shape_is_the_modelled_one.
 
 (** non-vacuity: a reachable state with a worker at its policy gate and a second handshake
     waiting on the worker's load channel *)
